@@ -374,21 +374,46 @@ func c16GenProgram(rt *rapid.T, i int, exclude map[string]bool) c16Prog {
 				h.Impl[c] = []int{0}
 			}
 		}
-		src := h.source()
-		src = strings.Replace(src, "<?php\n", "<?php\nnamespace "+name+";\nfunction __obs($l, $v) { echo $l, '=', json_encode($v), \";\"; }\n", 1)
-		src = strings.ReplaceAll(src, "extends Exception", "extends \\Exception")
-		src = strings.ReplaceAll(src, "Throwable", "\\Throwable")
-		src = strings.ReplaceAll(src, "(Exception ", "(\\Exception ")
-		src = strings.ReplaceAll(src, "instanceof Exception", "instanceof \\Exception")
-		return c16Prog{Name: name, Src: src, Kind: "hierarchy"}
+		return c16HierProgram(name, h)
 	}
+}
+
+// c16HierProgram turns a C08 hierarchy fixture into a namespaced program that prints its observations.
+func c16HierProgram(name string, h *hier) c16Prog {
+	src := h.source()
+	src = strings.Replace(src, "<?php\n", "<?php\nnamespace "+name+";\nfunction __obs($l, $v) { echo $l, '=', json_encode($v), \";\"; }\n", 1)
+	src = strings.ReplaceAll(src, "extends Exception", "extends \\Exception")
+	src = strings.ReplaceAll(src, "Throwable", "\\Throwable")
+	src = strings.ReplaceAll(src, "(Exception ", "(\\Exception ")
+	src = strings.ReplaceAll(src, "instanceof Exception", "instanceof \\Exception")
+	return c16Prog{Name: name, Src: src, Kind: "hierarchy"}
+}
+
+// c16FixedHierarchies: interface-free chains of 2 and 3 classes with every placement of the method and
+// the static method below the root (self:: / static:: / parent:: / new self / new static through subclasses).
+func c16FixedHierarchies() []c16Prog {
+	var out []c16Prog
+	k := 0
+	for _, n := range []int{2, 3} {
+		for mask := 0; mask < 1<<(2*(n-1)); mask++ {
+			h := &hier{Parent: make([]int, n), IExt: [][]int{}, Impl: make([][]int, n), DefM: make([]bool, n), DefTag: make([]bool, n)}
+			for c := 0; c < n; c++ {
+				h.Parent[c] = c - 1
+				h.DefM[c] = c == 0 || mask&(1<<(2*(c-1))) != 0
+				h.DefTag[c] = c == 0 || mask&(1<<(2*(c-1)+1)) != 0
+			}
+			out = append(out, c16HierProgram(fmt.Sprintf("fh%03d", k), h))
+			k++
+		}
+	}
+	return out
 }
 
 func TestC16(t *testing.T) {
 	cfg := sb.LoadConfig("C16")
 	rec := sb.NewRec(cfg)
 	defer rec.Flush()
-	rec.R.Rule = "batches of generated programs (control flow, exceptions in a namespace, expressions, class programs, class hierarchies with dispatch, files with several namespace sections, user-defined attributes) plus the statically deterministic corpus files; every program is translated by its own `origami compile` invocation, the batch is built once into one binary, and each program is run compiled and interpreted: stdout, exit status and the location-free diagnostic must be equal. Non-trivial = the interpreted run prints something and the generated Go source uses at least one node constructor (special handler / fast-path node); distinct by program text."
+	rec.R.Rule = "batches of generated programs (control flow, exceptions in a namespace, expressions, class programs, class hierarchies with dispatch, files with several namespace sections, user-defined attributes), 20 fixed interface-free class chains with every placement of the dispatched methods, plus the statically deterministic corpus files; every program is translated by its own `origami compile` invocation, the batch is built once into one binary, and each program is run compiled and interpreted: stdout, exit status and the location-free diagnostic must be equal. Non-trivial = the interpreted run prints something and the generated Go source uses at least one node constructor (special handler / fast-path node); distinct by program text."
 	dl := time.Now().Add(budget(cfg, 200, 1800))
 	root, _ := os.MkdirTemp("", "c16-")
 	defer os.RemoveAll(root)
@@ -430,6 +455,9 @@ func TestC16(t *testing.T) {
 			}
 			return nil
 		})
+		if b == 0 && cfg.Shard == 0 {
+			progs = append(progs, c16FixedHierarchies()...)
+		}
 		if b == 0 {
 			files := deterministicCorpus()
 			sort.Strings(files)
